@@ -102,10 +102,11 @@ type SpecDB struct {
 	Axioms    []*Axiom
 	Order     []string // declaration order of ufun/define names
 	Files     []string
+	SortAlias map[string][2]string // name -> (Go type expression, package path)
 }
 
 func NewSpecDB() *SpecDB {
-	return &SpecDB{Contracts: map[string]*Contract{}, UFuns: map[string]*UFun{}, Defines: map[string]*Define{}}
+	return &SpecDB{Contracts: map[string]*Contract{}, UFuns: map[string]*UFun{}, Defines: map[string]*Define{}, SortAlias: map[string][2]string{}}
 }
 
 var (
@@ -187,6 +188,13 @@ func (db *SpecDB) LoadContractFile(path, defaultPkg string) error {
 		switch kw {
 		case "pkg":
 			pkg = rest
+			cur = nil
+		case "sort":
+			kv := strings.SplitN(rest, "=", 2)
+			if len(kv) != 2 {
+				return fail(l.n, "bad sort alias %q", rest)
+			}
+			db.SortAlias[strings.TrimSpace(kv[0])] = [2]string{strings.TrimSpace(kv[1]), pkg}
 			cur = nil
 		case "func":
 			m := reFuncHdr.FindStringSubmatch(l.s)
